@@ -1,5 +1,5 @@
 P = {
-    "gens": ["C07agents", "C07race", "C07churn"],
+    "gens": ["C07agents", "C07race", "C07churn", "C07routes"],
     "theorems": ["C07_exact", "C07_fetch_exactly_once", "C07_mailbox_linearizable", "C07_mailbox_unlocked_refuted",
                  "C07_mailbox_unlocked_refuted_twice", "C07_report_iff_handover", "C07_report_iff_handover_step", "C07_nobody_registered", "C07_amid_others"],
     "rule": "histories of register / unregister / fetch / connect / disconnect / deliver on a real Core with real MuxAgent, "
@@ -20,13 +20,23 @@ P = {
             "the stable recipients' endpoint - concurrently with a bundle stream and a HasEndpoint prober; on the MuxAgent alone "
             "(900 phases), the WebSocketAgent alone (100 phases) and a real Core (5 runs): every bundle reaches every stable "
             "recipient exactly once, HasEndpoint never answers false, nothing goes to a peer, nobody else receives anything, the "
-            "implementation does not deadlock. distinct = distinct case bodies",
+            "implementation does not deadlock. Routes (C07routes): registered endpoints below and OUTSIDE the node's own name "
+            "(group endpoint dtn://news/~all, another dtn authority, ipn endpoints on a dtn node; dtn endpoints and another node "
+            "number on an ipn node) with 1..4 recipients per endpoint out of {mock agent, mock agent with two endpoints, REST "
+            "client, WebSocket client} and a bystander, under every routing algorithm (epidemic, spray, binary_spray, prophet, "
+            "dtlsr, sensor-mule: the decision passes through DispatchingAllowed) x {no peer, only the previous node, a fresh "
+            "peer, both}, received and submitted by a local client, with ordinary payloads and administrative records (status "
+            "reports with every subset of asserted items incl. none, unknown record type, garbage): handed to exactly the "
+            "registered recipients once and unchanged whatever the payload, never transmitted; an administrative record the node "
+            "cannot read is deleted (behaviour of the code as it stands, checked as correspondence). "
+            "distinct = distinct case bodies",
     "assumptions": [
         "handlers of the Core and of the agents are atomic w.r.t. each other except deliver/fetch on one mailbox "
         "(sub-step model, all interleavings); a client that unregisters between AgentManager.HasEndpoint and the "
         "multiplexer's fan-out is not modelled (C07_amid_others covers every history of *other* agents' events between the "
         "registration of a recipient and a delivery; the churn generator runs them truly concurrently)",
-        "bundles are not administrative records; no CLA endpoint IDs registered at the CLA manager",
+        "the histories of C07agents / C07churn use no administrative records (C07routes does: readable ones are delivered like "
+        "any bundle, unreadable ones are deleted before the hand-over); no CLA endpoint IDs registered at the CLA manager",
         "forwarding is abstracted to 'given to every connected peer and kept in the store' (epidemic, mock senders succeed)",
     ],
     "trusted_base": [
